@@ -335,7 +335,6 @@ def gen_case(rng, tier):
         elif r < 0.14 and paths:
             paths.insert(rng.randint(0, len(paths)), "")
             kind = "emptypath"
-        rng.random()
         arg = paths
         if len(paths) == 1 and rng.random() < 0.5:
             arg = paths[0]
@@ -582,4 +581,25 @@ def trusted_base(prop):
 
 
 def partial_clauses(prop):
-    return []
+    return [
+        "start node: theorems and correspondence cover calls on a root (the property's guard); prune_tree / "
+        "get_subtree called on an inner node are not modelled",
+        "nested prune targets (one target an ancestor of another) are outside the property's quantifier: the "
+        "check skips them (F_SKIP) and C14_prune_kept carries the hypothesis `nested _ = false`",
+        "theorems that speak about which node a path addresses (C14_model_satisfies_prop, C14_prune_kept, "
+        "C14_missing_path_error, C14_subtree_spec) are for a one-character tree separator; for multi-character "
+        "separators the faithful model violates the predicate (C14_multichar_sep_refuted = known finding K3-C14); "
+        "C14_prune_kept_any_sep, C14_prune_depth, C14_prune_attrs_order, C14_detach_rule hold for all separators",
+        "a prune path that addresses several nodes is answered by SearchError in model and code; the predicate "
+        "makes no claim there (documented precondition: path names unique); model and code are still compared",
+        "Node trees only (BinaryNode trees, which prune_tree also accepts, are not generated); max_depth is a "
+        "natural number (negative ints behave as 'no limit' in the code and are not generated)",
+    ]
+
+
+def assumptions(prop):
+    return [
+        "'a path addresses a node' = after removing trailing separators the path is a trailing part of the "
+        "node's path_name as a *string* (find_path's documented meaning, DESIGN.md C09); hence the bare name "
+        "'a' also addresses a node named 'xa'",
+    ]
